@@ -145,6 +145,12 @@ func (lv *LeafVariants) remainsToExist() bool {
 		return false
 	}
 
+	// if all the intent entries are marked for deletion, an explicit delete is
+	// sent to the device, a running entry does not make the value remain.
+	if lv.shouldDelete() {
+		return false
+	}
+
 	// go through all variants
 	for _, l := range lv.les {
 		// if an entry exists that does not have the delete flag set,
@@ -228,6 +234,18 @@ func (lv *LeafVariants) GetHighestPrecedence(onlyNewOrUpdated bool, includeDefau
 	// if it does not matter if the highes update is also New or Updated return it.
 	// An entry that is marked for deletion will be gone though, so the best remaining entry is what counts.
 	if !onlyNewOrUpdated {
+		// if all the intent entries are marked for deletion the value disappears from the device,
+		// the running entry included. What remains is the default, if any.
+		if lv.shouldDelete() {
+			if includeDefaults {
+				for _, e := range lv.les {
+					if e.Owner() == DefaultsIntentName {
+						return e
+					}
+				}
+			}
+			return nil
+		}
 		if checkExistsAndDeleteFlagSet(highest) && secondHighest != nil {
 			highest = secondHighest
 		}
